@@ -358,3 +358,6 @@ Definition digest (bs : bytes) : Z := fold_left (fun acc b => Z.land (acc * 31 +
 Definition acl_sum (p : acl) := (a_handle p, a_pb p, a_bc p, a_len p, (blen (a_data p), digest (a_data p))).
 Definition ev_sum (e : asm_ev) : Z * Z * Z :=
   match e with Deliver p => (0, blen p, digest p) | _ => (ev_code e, 0, 0) end.
+Definition bytes_sum (b : bytes) := (firstn 13 b, blen b, digest b).
+Definition iso_sum (p : iso) :=
+  (i_handle p, i_pb p, i_len p, (i_seq p, i_sdu_len p, i_psf p), (blen (i_frag p), digest (i_frag p))).
